@@ -1,7 +1,7 @@
 ------------------------------- MODULE C07Gen -------------------------------
 EXTENDS C07Types, Json, IOUtils
 Which == IOEnv.VUNIVERSE
-U == IF Which = "U2" THEN U2 ELSE U1
+U == IF Which = "U2" THEN U2 ELSE U1 \cup U3
 TSeq == SetToSeq(U)
 ASSUME ndJsonSerialize(IOEnv.VOUT, [i \in 1..Len(TSeq) |-> [i |-> i, t |-> TSeq[i]]])
 ASSUME PrintT(<<"GEN", Len(TSeq)>>)
